@@ -127,7 +127,7 @@ def main():
     # ---- CLI: fresh processes, real pool
     wd = E.workdir('c09cli')
     try:
-        make_dataset(os.path.join(wd, 'ds'), rng, 2600)
+        make_dataset(os.path.join(wd, 'ds'), rng, 3500)      # two full batches of 1200 and a shorter trailing batch of 1100 rows
         base_args = dict(task='ranking', data_path='ds', data_source='csv-raw', minibatch_size=1200, subsampling=1, heuristic='MI-numba-randomized')
         groups = {
             'default': dict(base_args),
